@@ -51,6 +51,13 @@ PATTERNS = {
              dict(its0=rng0(4, 6, 2), its1=rng0(4, 6, 1), chk=[]),
              dict(its0=rng0(6, 8, 2), its1=rng0(6, 8, 1), chk=[8])],
 }
+PATTERNS['changing_group'] = [
+    dict(its0=rng0(0, 4, 2), its1=rng0(0, 4, 1), chk=[4],
+         extra=['phi', 'Pi']),
+    dict(its0=rng0(4, 8, 2), its1=rng0(4, 8, 1), chk=[8],
+         extra=['phi', 'chi']),
+    dict(its0=rng0(8, 12, 2), its1=rng0(8, 12, 1), chk=[],
+         extra=['chi'])]
 _PRISTINE = {}
 _CFG = None
 
@@ -74,7 +81,9 @@ def make_spec(name, pattern, layout, levels):
         if levels == 2:
             its[1] = p['its1']
         restarts.append({'its': its, 'boxes': bx, 'checkpoints': p['chk'],
-                         'checkpoint_files': p.get('chkfiles', 1)})
+                         'checkpoint_files': p.get('chkfiles', 1),
+                         'variables': VARS + p.get('extra', []),
+                         'extra': p.get('extra', [])})
     return {'simname': name, 'grouped': grouped, 'proc': proc, 'ghost': 1,
             'variables': VARS, 'shapes': SHAPES, 'restarts': restarts}
 
@@ -112,7 +121,7 @@ def truth_restart(spec, r):
     rs = spec['restarts'][r]
     out = {}
     if not rs.get('empty'):
-        out['var available'] = set(EXPECT_GROUPS)
+        out['var available'] = set(EXPECT_GROUPS) | set(rs.get('extra', []))
         allits = sorted(set(i for its in rs['its'].values() for i in its))
         out['its available'] = [allits[0], allits[-1]]
         for rl, its in rs['its'].items():
@@ -190,7 +199,7 @@ class System:
         """{tuple(sorted vars): set(files)} for restart r."""
         d = os.path.join(self.simdir(), f'output-{r:04d}', self.name)
         byvar = {}
-        for v in VARS:
+        for v in self.spec['restarts'][r].get('variables', VARS):
             thorn, gbase = etgen.VARTABLE[v]
             base = gbase if self.spec['grouped'] else v
             fs = set()
@@ -580,6 +589,8 @@ def plans(tier):
                      3 if tier == 'quick' else 4))
     for lay in [(False, False), (True, True), (True, False), (False, True)]:
         cfgs.append((('sim-v1.2', 'two', lay, 1), 'full', 3))
+    for lay in [(True, True), (True, False), (False, False)]:
+        cfgs.append((('sim', 'changing_group', lay, 1), 'full', 3))
     if tier == 'thorough':
         for nm in NAMES:
             cfgs.append(((nm, 'empty_mid', (True, True), 2), 'full', 3))
